@@ -27,6 +27,7 @@ import io
 import json
 import os
 import pickle
+import random
 import re
 import sys
 import threading
@@ -94,7 +95,9 @@ VALID = dict(
     cameras=('<{p}camera id="{id}"><{p}optics><{p}technique_common><{p}perspective><{p}xfov>45</{p}xfov><{p}znear>1</{p}znear>'
              '<{p}zfar>10</{p}zfar></{p}perspective></{p}technique_common></{p}optics></{p}camera>'),
     nodes='<{p}node id="{id}"><{p}translate>1 2 3</{p}translate></{p}node>',
-    scenes='<{p}visual_scene id="{id}"><{p}node id="{id}-n"/></{p}visual_scene>',
+    # every document uses the same id for the root it instantiates: ids are per document (and per visual scene)
+    scenes=('<{p}visual_scene id="{id}"><{p}node id="root"><{p}translate>{perm}</{p}translate></{p}node>'
+            '<{p}node id="{id}-n"><{p}instance_node url="#root"/></{p}node></{p}visual_scene>'),
 )
 # templates whose loader raises exactly this DaeError subclass and drops the item (probed on the real loaders)
 FAULT = {
@@ -1077,6 +1080,54 @@ def brief(case):
     return ['%d: %s' % (i, b(op)) for i, op in case['sched']]
 
 
+def adopt_check(seed):
+    """hand a library of one document to another (`B.lights = A.lights`), then edit either: the other document's list, id index and written
+    bytes stay what they were. Returns None or (signature, text)"""
+    import collada
+    rng = random.Random('c20adopt/%s' % seed)
+    docs = []
+    for _ in range(2):
+        spec = gen_doc(rng)
+        spec['fatal'] = None
+        try:
+            docs.append(collada.Collada(io.BytesIO(render(spec)), ignore=[err_class('DaeError')]))
+        except Exception:
+            return 'skip'
+    a, b = docs
+    lib = rng.choice(GEN_LIBS)
+    for i in range(rng.randint(0, 2)):
+        getattr(a, lib).append(make_object(a, lib, 'pre%d' % i))
+    form = rng.choice(['list-object', 'list-object', 'plain-list', 'slice'])
+    src = getattr(a, lib)
+    setattr(b, lib, src if form == 'list-object' else list(src) if form == 'plain-list' else src[:])
+
+    def view(d):
+        L = getattr(d, lib)
+        buf = io.BytesIO()
+        try:
+            d.write(buf)
+        except Exception as e:
+            buf = io.BytesIO(('write failed: %s' % type(e).__name__).encode())
+        return ([qid(getattr(o, 'id', None)) for o in L], sorted(k for k in ['pre0', 'pre1', 'new0', 'new1', 'new2'] if k in L), blank_times(buf.getvalue()))
+    victim, actor = (a, b) if rng.random() < 0.6 else (b, a)
+    before = view(victim)
+    hist = []
+    for i in range(rng.randint(1, 3)):
+        L = getattr(actor, lib)
+        if len(L) and rng.random() < 0.4:
+            hist.append('remove')
+            L.remove(L[rng.randrange(len(L))])
+        else:
+            hist.append('append')
+            L.append(make_object(actor, lib, 'new%d' % i))
+    after = view(victim)
+    if before != after:
+        what = 'contents' if before[0] != after[0] else 'id index' if before[1] != after[1] else 'written bytes'
+        return ('adopt:%s' % what.replace(' ', '-'), 'B.%s = A.%s (%s), then %s on %s.%s: the %s of the OTHER document changed: %s -> %s'
+                % (lib, lib, form, '+'.join(hist), 'B' if actor is b else 'A', lib, what, before[0], after[0]))
+    return None
+
+
 # ----------------------------------------------------------------------------- the check
 
 def run(ctx):
@@ -1250,6 +1301,20 @@ def _run(ctx, z):
                               dict(kind='monitor', case=small, attr=a), found_input=False)
     ctx.notes['module_state_attributes_watched'] = len(monitor.base)
     ctx.notes['module_state_writes_seen'] = len(monitor.hits)
+
+    # --- (c') a library handed from one document to another
+    for i in range(ctx.n(150, 3000)):
+        aseed = ctx.rng.randrange(10 ** 9)
+        try:
+            ab = adopt_check(aseed)
+        except Exception as e:
+            ab = ('adopt:raised:' + type(e).__name__, 'handing a library to another document raised %s: %s' % (type(e).__name__, e))
+        if ab == 'skip':
+            continue
+        ctx.count('adopt-library')
+        if ab and 'iso:' + ab[0] not in reported:
+            reported.add('iso:' + ab[0])
+            ctx.violation('iso:' + ab[0], ab[1], dict(kind='adopt', seed=aseed))
 
     # --- (d) threads on distinct documents
     if ctx.thorough:
@@ -1431,6 +1496,11 @@ def replay(ctx, rep):
             if d['field'] == 'snap':
                 print('  ' + text_diff(*d['full']))
             return True
+        if kind == 'adopt':
+            ab = adopt_check(rep['seed'])
+            if ab and ab != 'skip':
+                print('  ' + ab[1])
+            return bool(ab) and ab != 'skip'
         if kind == 'monitor':
             inter = z.call('inter', [(rep['case'], False)])[0]
             hit = [a for _, ch in inter['monitor'] for a in ch if rep['attr'] in a]
